@@ -4,7 +4,6 @@ import (
 	"bytes"
 	"crypto/sha256"
 	"encoding/binary"
-	"encoding/hex"
 	"fmt"
 	"os"
 	"sync"
@@ -140,12 +139,7 @@ func newC20Slot(ctx *ev.Ctx, router string, c c20Case) *c20Slot {
 	s := &c20Slot{router: router}
 	r := &runner{ctx: ctx, c: c30Case{Router: router, Sets: c.Sets}, rt: routerOf(router), known: map[string]string{}}
 	r.e = newEnv(router)
-	for _, set := range c.Sets {
-		r.known[hex.EncodeToString(r.rt.setHash(set, 10))] = setContent(set)
-		if router == "cosmos" {
-			r.known[hex.EncodeToString(r.rt.setHash(set, 11))] = setContent(set)
-		}
-	}
+	r.learnSets()
 	s.r = r
 	name := "ccm"
 	if router == "okex" {
